@@ -462,7 +462,11 @@ func (ex *Exec) runBody(st *State, pc string) {
 			case *ssa.Panic:
 				pv := ex.val(t.X)
 				ex.pendingPanicVal = &pv
-				ex.panicSite(t.Pos(), "panic("+t.X.Name()+")", "")
+				what := ex.eng.snippet(t.Pos())
+				if what == "" {
+					what = "panic(" + t.X.Name() + ")"
+				}
+				ex.panicSite(t.Pos(), what, "")
 				ex.pendingPanicVal = nil
 			default:
 				ex.instr(in)
@@ -970,6 +974,12 @@ func (eng *Engine) VerifyFunc(fn *ssa.Function, fc *FuncContract) (em *Emitter, 
 		ex.vacuity(fmt.Sprintf("return#%d reachable", ri+1), r.pc, fn.Pos())
 		for i, cl := range fc.Ensures {
 			lab := cl.Label
+			if strings.HasPrefix(lab, "call.") {
+				// a call-site summary: an abstract name for the effect that the [body:...] clauses spell out; it is
+				// assumed at call sites and not a proof goal of the body
+				em.Assumed["call-site summary of "+key+" ["+lab+"] is definitional (it names the effect proved by the body clauses)"] = true
+				continue
+			}
 			if lab == "" {
 				lab = fmt.Sprintf("ens%d", i+1)
 			}
